@@ -306,6 +306,51 @@ class KernExporter(object):
         self.prev_note_time = el.start.t
 
 
+def _fill_gaps_with_rests(part):
+    """
+    A spine has to hold a token whenever it is free: the time between two notes
+    of a voice in which the voice has neither a note nor a rest is filled with
+    rests (bar by bar, in values that can be written).
+    """
+    from partitura.utils.music import estimate_symbolic_duration
+
+    barlines = sorted(m.start.t for m in part.iter_all(spt.Measure))
+    by_voice_staff = defaultdict(list)
+    for el in part.iter_all(spt.GenericNote, include_subclasses=True):
+        by_voice_staff[(el.voice, el.staff)].append(el)
+    for (voice, staff), elements in by_voice_staff.items():
+        elements.sort(key=lambda el: el.start.t)
+        # from the start of the part to its end
+        position = part.first_point.t
+        targets = [(el.start.t, el.end.t) for el in elements]
+        targets.append((part.last_point.t, part.last_point.t))
+        for target_start, target_end in targets:
+            while target_start > position:
+                # up to the next note, but not across a barline
+                end = min([target_start] + [b for b in barlines if b > position])
+                qdivs = int(part.quarter_duration_map(position))
+                value = None
+                for dur in (1, 2, 4, 8, 16, 32, 64, 128, 256):
+                    v = qdivs * 4 / dur
+                    if v == int(v) and v <= end - position:
+                        value = int(v)
+                        break
+                if value is None:
+                    warnings.warn("A gap in a voice cannot be written as rests.")
+                    break
+                part.add(
+                    spt.Rest(
+                        voice=voice,
+                        staff=staff,
+                        symbolic_duration=estimate_symbolic_duration(value, qdivs),
+                    ),
+                    position,
+                    position + value,
+                )
+                position += value
+            position = max(position, target_end)
+
+
 def save_kern(
     score_data: spt.ScoreLike,
     out: Optional[PathLike] = None,
@@ -336,6 +381,7 @@ def save_kern(
         part = score_data
     if not part.measures:
         spt.add_measures(part)
+    _fill_gaps_with_rests(part)
     spt.fill_rests(part, measurewise=False)
     exporter = KernExporter(part)
     out_data = exporter.parse()
